@@ -3,6 +3,7 @@ import Drv.C14
 import Drv.C17
 import Drv.C20
 import Drv.C19
+import Drv.C01
 /- Line protocol driver: one command per line in, one line out. -/
 open Drv
 
@@ -16,6 +17,8 @@ def dispatch (line : String) : String :=
   | "c17.dec" :: args => C17.cmdDec args
   | "c20" :: args => C20.cmd args
   | "c19" :: args => C19.cmd args
+  | "c01.enc" :: _ => C01.cmdEnc (C01.restAfter line 1)
+  | "c01.dec" :: lim :: mono :: rows :: hex :: _ => C01.cmdDec lim mono rows hex (C01.restAfter line 5)
   | "ping" :: _ => "pong"
   | _ => "bad-op"
 
